@@ -297,7 +297,7 @@ class E2E:
         with open(d + "/auth.py", "w") as f:
             f.write("#!/usr/bin/python3 -u\nimport sys\nfor l in sys.stdin:\n    sys.stdout.write('OK\\n'); sys.stdout.flush()\n")
         os.chmod(d + "/auth.py", 0o755)
-        self.squid.start()
+        self.squid.start(wait=90)   # a loaded machine needs more than the default 10 s
         self.log = d + "/vf.log"
         self.origin.on("e", lambda req: [("send", rig.simple_response(200, b"ok"))])
         self.lock = threading.Lock()
